@@ -1044,7 +1044,7 @@ def b_combine_legs(W, v):
         kw['new_axes'] = [1]
     elif v == 'two':
         groups = [[r - 1], [1, 0]]
-        new_axes = [0, 1]
+        new_axes = [0, -1]  # (negative: counted in the result)
         kw['new_axes'] = [0, -1]
     elif v == 'single':
         groups = [[0]]
